@@ -392,7 +392,11 @@ where
 
         let sigma: Model::ScalarType = Float::sqrt(reduced_chi2);
 
+        // invert using the LU decomposition. For matrices of dimension <= 4,
+        // `try_inverse` uses closed form (adjugate) expressions that lose all
+        // accuracy for the moderately ill-conditioned matrices that occur here
         let HTH_inv = (H.transpose() * H)
+            .lu()
             .try_inverse()
             .ok_or(Error::MatrixInversion)?;
         let covariance_matrix = HTH_inv * sigma * sigma;
